@@ -32,6 +32,11 @@ StepEv(c, ev, q, tol) ==
                            ELSE GStepIdle(c, ev, ev.same)
       [] ev.ev = "at"   -> AtStep(c, ev, q, tol, ev.same)
       [] ev.ev = "addr" -> AddRegionStep(c, ev.reg)
+      [] ev.ev = "pev"  -> PevStep(c, ev)
+      [] ev.ev = "set"  -> SetStep(c, ev.store)
+      [] ev.ev = "hook" -> HookStep(c, ev, q, tol)
+      [] ev.ev = "api"  -> ApiStep(c, ev, q)
+      [] ev.ev = "get"  -> GetStep(c, ev)
       [] OTHER -> [c EXCEPT !.n = c.n + 1]
 
 Step ==
